@@ -108,16 +108,67 @@ def wrap_unit_stream(rep, rng, n):
     return True
 
 
+def oracle_c16(sc, g):
+    """implementation only: the long name of an option appears in the help text iff the option, its group (and, for a command's
+    own options, the command) are not hidden and the command is on the active chain; in the man page iff visible anywhere in the
+    tree of visible commands.  Only names that denote one option of the whole declaration are judged."""
+    if "meta" not in sc:
+        return None
+    d = sc["cfg"]["nsdelim"]
+    allopts = []
+    def collect(nd, path, hidden_above):
+        for o in nd["opts"]:
+            allopts.append((o, path, nd, hidden_above))
+        for i, s2 in enumerate(nd["subs"]):
+            collect(s2, path + (i,), hidden_above or bool(s2.get("hidden")))
+    collect(sc["meta"], (), False)
+    def qlong(o):
+        return d.join([n for n in o.get("ns", ()) if n] + [o["long"]])
+    counts = {}
+    for o, _, _, _ in allopts:
+        if o["long"]: counts[qlong(o)] = counts.get(qlong(o), 0) + 1
+    if sc["cfg"]["opts"]["help"]:
+        counts[b"help"] = counts.get(b"help", 0) + 1      # the built-in help option is listed too
+    for op, r in zip(sc["ops"], g["ops"]):
+        if op["op"] not in ("help", "man") or r.get("panic"):
+            continue
+        text = bytes.fromhex(r.get("bytes", ""))
+        if op["op"] == "man":
+            text = text.replace(b"\\-", b"-")
+        active = tuple(int(x) for x in r.get("active", "").split(".") if x != "")
+        for o, path, nd, hidden_above in allopts:
+            if not o["long"] or counts[qlong(o)] != 1 or o.get("ext") and False:
+                continue
+            own_group_hidden = o.get("ghidden") or (o.get("gdesc") is None and nd.get("hidden"))
+            visible = not o.get("hidden") and not own_group_hidden
+            if op["op"] == "help":
+                shown = visible and active[:len(path)] == path
+            else:
+                # the man page walks the whole tree, skipping hidden commands with everything below them
+                shown = visible and not hidden_above
+            name = re.escape(qlong(o))
+            if op["op"] == "help":
+                # an option row: indentation, optional short name, the long name (values such as choices may look like options)
+                pat = rb"(?m)^ +(?:-[^\s,]+, )?--" + name + rb"(?![A-Za-z0-9_.:\-\x80-\xff])"
+            else:
+                pat = rb"\\fB--" + name + rb"\\fR"
+            present = re.search(pat, text) is not None
+            if shown != present:
+                return "%s: option --%s is %s but %s in the %s" % (op["op"], qlong(o).decode("utf-8", "replace"), "visible" if shown else "hidden or out of scope",
+                                                                  "listed" if present else "not listed", "help text" if op["op"] == "help" else "man page")
+    return None
+
+
 def run_c16(rep, tier, rng, replay=None):
     rep.cov["rule"] = ("declarations with every mix of hidden/visible options, groups and commands, masks, env keys with namespaces, choices, value names, "
                        "positional arguments; a ParseArgs selects an active chain; then WriteHelp and WriteManPage: bytes of the implementation vs the model's "
                        "renderer (the theorems are about the rows the model renders); non-trivial = help text has at least one option row")
     keys = ["panic", "err", "bytes", "out"]
     if replay:
-        common.replay(rep, "C16", replay, keys=keys); return
+        common.replay(rep, "C16", replay, keys=keys, oracle=oracle_c16); return
     if not lib.std_proof_phase(rep, "C16"): return
     common.scenario_check(rep, rng, "C16", 150 if tier == "quick" else 10000, keys=keys, transform=None, stream="help+man",
-                          theorem_names="C16_*", make=lambda r: make_help(r, False))
+                          theorem_names="C16_*", make=lambda r: make_help(r, False), oracle=oracle_c16)
 
 
 def run_c17(rep, tier, rng, replay=None):
